@@ -1,6 +1,7 @@
 //! Shared machinery for the retrofire exploration engines.
 pub mod json;
 pub mod report;
+pub mod pipe;
 
 pub use json::{fbits, parse_fbits, J};
 pub use report::{fnv, par_range, replay_main, Cfg, Report, Tier, Viol};
